@@ -30,7 +30,7 @@ def cases(draw):
     msgs = []
     for i in range(n):
         kind = draw(st.sampled_from(["req", "req", "ans", "dwr"]))
-        size = draw(st.sampled_from([0, 0, 1, 3, 17, 100, 1000, 5800]))
+        size = draw(st.sampled_from([0, 0, 1, 3, 17, 100, 1000, 5800, 5800, 65400, 65536, 70000, 140000]))
         msgs.append({"kind": kind, "size": size})
     if not any(m["kind"] != "dwr" for m in msgs):
         msgs[0]["kind"] = "req"
